@@ -52,6 +52,13 @@ fn main() {
       }
       std::process::exit(0);
     }
+    "c12-battery" => {
+      let first: usize = args.get(2).and_then(|x| x.parse().ok()).unwrap_or(0);
+      match pv::props::checkers::battery(first) {
+        Ok(()) => std::process::exit(0),
+        Err(f) => { println!("BATTERY-FAILED {}", f.msg); std::process::exit(1); }
+      }
+    }
     "trace" => {
       if args.len() < 3 { usage(); }
       match pv::props::build::trace_digest_of_file(Path::new(&args[2])) {
